@@ -85,6 +85,19 @@ func (e *Evidence) Case(canon string, nontrivial bool, classes ...string) {
 	}
 }
 
+// NonTrivial records a distinct non-trivial item that is not a generated case of its own (e.g.
+// one crash image of a run) without counting an evaluation.
+func (e *Evidence) NonTrivial(canon string) {
+	e.mu.Lock()
+	defer e.mu.Unlock()
+	e.classes["nontrivial"]++
+	if len(e.hashes) < e.hashCap {
+		e.hashes[Hash64(canon)] = struct{}{}
+	} else {
+		e.overflow++
+	}
+}
+
 // Evals adds evaluations that are not distinct cases of their own (e.g. queries of one corpus).
 func (e *Evidence) Evals(n int) {
 	e.mu.Lock()
